@@ -234,6 +234,17 @@ func genRevisions(t *tape.Tape) *c13Case {
 			c.Orders = append(c.Orders, t.Perm(n))
 		}
 	}
+	if rt := t.Sub("reload"); rt.Chance(1, 3) && n >= 1 {
+		// one text is offered a second time, under the same source name (the
+		// same file read again): same name and revision, so it must be rejected
+		for i, ord := range c.Orders {
+			at := rt.Intn(len(ord))
+			pos := at + 1 + rt.Intn(len(ord)-at)
+			again := append([]int(nil), ord[:pos]...)
+			again = append(again, ord[at])
+			c.Orders[i] = append(again, ord[pos:]...)
+		}
+	}
 	return c
 }
 
